@@ -1296,6 +1296,13 @@ func (broker *Broker) finish(file sts.Polled) {
 		// picked up again to be sent redundantly.
 		broker.Conf.Cache.Done(file.GetName(), func(cached sts.Cached) {
 			if broker.canDelete(cached) {
+				if f, err := broker.Conf.Store.Sync(cached); f != nil || err != nil {
+					// What was confirmed is the version in the cache.  If the file
+					// has changed since, what is there now has not been sent yet
+					// (the next scan picks it up) and must not be deleted.
+					broker.info("Not deleting changed file:", cached.GetName())
+					return
+				}
 				if err := broker.Conf.Store.Remove(cached); err != nil {
 					broker.error("Failed to delete:", cached.GetName(), err.Error())
 					return
